@@ -27,8 +27,12 @@ STEP_OUTSIDE = ["packets longer than the listed lengths", "option areas beyond t
                 "windows wider than W", "sequences of several inbound packets (state independence is checked separately in C09)"]
 
 
-def J(pkg, harness, reach=None, timeout=600, solver=None, query_ms=None, **params):
+def J(pkg, harness, reach=None, timeout=600, solver=None, query_ms=None, no_replay=False, max_preempt=None, **params):
     j = {"pkg": pkg, "harness": harness, "params": {k: str(v) for k, v in params.items()}, "timeout_s": timeout}
+    if no_replay:
+        j["no_replay"] = True
+    if max_preempt is not None:
+        j["max_preempt"] = max_preempt
     if solver:
         j["solver"] = solver
     if query_ms:
@@ -242,6 +246,49 @@ spec("C20", ["C20/"], [J("traceroute", "Verif_C20_fallback", ["end"], method=m) 
      {"error chains": "depth <= 3; each level fmt.Errorf %w / errors.Join / custom Unwrap type / fmt.Errorf %v (chain lost); NotSupportedError at the leaf or absent",
       "scope": "parts (a) and (d) of DESIGN 5 C20: the policy function with recording closures, and the e2e probe's method choice"},
      ["where NotSupportedError really comes from (runSackTraceroute with models: not built yet)", "that method syn never dials (entry-point harness: not built yet)"])
+
+
+# ---- engine-level harnesses (model driver, real TracerouteParallel/Serial, all schedules) ----
+def E(harness, reach, timeout=900, **kw):
+    return J("common", harness, reach, timeout=timeout, no_replay=True, **kw)
+
+ENGINE_BOUNDS = {
+    "driver": "model TracerouteDriver: ReceiveProbe takes a symbolic time in [0, poll] and returns per call a symbolic choice of nothing / a reply (destination or not) to any probe already sent; SendProbe takes no time",
+    "window": "W TTLs (see job params), timeout = timeoutPolls x 100 ms poll, SendDelay 10 ms",
+    "replies": "at most `replies` accepted replies per run (duplicates, late replies for earlier TTLs and several destination replies included)",
+    "schedules": "every interleaving of the engine's goroutines at scheduling points (mutex, channel, context, waitgroup, driver calls, sleeps) unless the job sets max_preempt; virtual discrete-event clock",
+}
+ENGINE_OUTSIDE = ["longer reply sequences and wider windows", "preemption inside straight-line code (justified by data-race freedom, C14 not claimed yet)",
+                  "native replay: schedule- and clock-dependent traces are reported from the symbolic run only"]
+ENGINE_MODELS = ["goroutines/channels/select on the engine's scheduler", "context model (zzverif.vctx) for context.WithCancel/WithTimeout/WithCancelCause", "sync.Mutex/WaitGroup/Once models",
+                 "errgroup executed from its real source", "time.Sleep/time.After on the virtual clock", "model TracerouteDriver (harness/common/engine.go)"]
+
+par_q = [E("Verif_Engine_parallel", ["returned"], W=1, replies=1), E("Verif_Engine_parallel", ["returned"], W=2, replies=1),
+         E("Verif_Engine_parallel", ["returned"], W=2, replies=2), E("Verif_Engine_parallel", ["returned"], W=2, replies=1, min=254)]
+par_t = par_q + [E("Verif_Engine_parallel", ["returned"], 7200, W=2, replies=3, timeoutPolls=3, max_preempt=2), E("Verif_Engine_parallel", ["returned"], 7200, W=3, replies=2, max_preempt=2),
+                 E("Verif_Engine_parallel", ["returned"], 7200, W=3, replies=3, max_preempt=1)]
+ser_q = [E("Verif_Engine_serial", ["returned"], W=2, replies=2), E("Verif_Engine_serial", ["returned"], W=3, replies=2), E("Verif_Engine_serial", ["returned"], W=2, replies=2, min=254)]
+ser_t = ser_q + [E("Verif_Engine_serial", ["returned"], 3600, W=3, replies=4, timeoutPolls=3), E("Verif_Engine_serial", ["returned"], 3600, W=4, replies=3)]
+can_q = [E("Verif_Engine_cancel", ["cancelled-before-return"], W=2, parallel=1), E("Verif_Engine_cancel", ["cancelled-before-return"], W=2, parallel=0),
+         E("Verif_Engine_cancel", ["cancelled-before-return"], W=2, parallel=0, replies=1)]
+can_t = can_q + [E("Verif_Engine_cancel", ["cancelled-before-return"], 3600, W=2, parallel=1, replies=1, max_preempt=1), E("Verif_Engine_cancel", ["cancelled-before-return"], 3600, W=3, parallel=1)]
+fail_q = [E("Verif_Engine_fail", ["fault-hit"], W=2, parallel=1), E("Verif_Engine_fail", ["fault-hit"], W=2, parallel=0)]
+fail_t = fail_q + [E("Verif_Engine_fail", ["fault-hit"], 3600, W=3, parallel=1, replies=2, max_preempt=2), E("Verif_Engine_fail", ["fault-hit"], W=3, parallel=0, replies=2)]
+
+spec("C07", ["C07/"], par_q, par_t, ENGINE_BOUNDS, ENGINE_OUTSIDE + ["'randomly beyond the bound' (a different technique; not substituted)"], models=ENGINE_MODELS)
+spec("C08", ["C08/"], par_q[:3] + ser_q[:2] + can_q, par_t + ser_t + can_t, ENGINE_BOUNDS,
+     ENGINE_OUTSIDE + ["deadlines handed to DNS / HTTP / dial (part (c) of the design) and ReadHandshake floods (part (d)): not built yet"], models=ENGINE_MODELS)
+# extend C03 and C06 with the engine parts
+SPECS["C03"]["tiers"]["quick"]["jobs"] += par_q[:3] + ser_q
+SPECS["C03"]["tiers"]["thorough"]["jobs"] += par_t + ser_t
+SPECS["C03"]["bounds"].update(ENGINE_BOUNDS)
+SPECS["C03"]["outside_bounds"] = ["longer tables"] + ENGINE_OUTSIDE
+SPECS["C03"]["models_used"] = MODELS + ENGINE_MODELS
+SPECS["C06"]["tiers"]["quick"]["jobs"] += par_q[:3] + ser_q[:2]
+SPECS["C06"]["tiers"]["thorough"]["jobs"] += par_t + ser_t
+SPECS["C06"]["bounds"].update(ENGINE_BOUNDS)
+SPECS["C06"]["outside_bounds"] = ["IP options on probes (none are generated)", "the UDP rule that a computed zero checksum is sent as 0xffff", "reported endpoints of the entry points (part (d)): not built yet"] + ENGINE_OUTSIDE
+SPECS["C06"]["models_used"] = MODELS + ENGINE_MODELS
 
 for prop, s in SPECS.items():
     with open(os.path.join(HERE, prop + ".json"), "w") as f:
